@@ -25,5 +25,11 @@ CHECKS["C04"] = (
     "Theorem C04_window_valid: for every history, every enabled start and every sampling horizon h <= H the returned window is, up to and including its first terminated step, a run of consecutive real writes W[c..c+k] (no synthetic successor row, none truncated, all live, read from the slots that hold them); no window reads an unwritten slot; the reduced view is the stated projection. The extracted model is compared with SubtrajectoryReplayBuffer(PER) after every add on every run; the spec is evaluated on (episode,t) tags in the returned rows.",
     "Trusts: Coq kernel, extraction, OCaml glue, Python harness and tag encoding; NumPy indexing as executed. Reading: guarantees hold up to the first terminated step (rows after it need only be written slots). No axioms.",
 )
+CHECKS["C15"] = (
+    "DESIGN.md §2 C15",
+    "Coq proof (per-call specification with a ghost assessment window, lifted by induction to every history; epoch monotonicity gives switch-at-most-once) + correspondence: exhaustive small histories and random long ones against the real function",
+    "Theorems for all sequences of (length >= 1, return), all window sizes, thresholds and reset weights: released + waiting = collected at every prefix; a release is exactly the window's steps and resets all counters; the checkpoint is replaced only on a complete window with every return >= the best minimum; cut short iff the window minimum is below it; the window size switches at most once, exactly at the threshold crossing. The extracted model is compared with assess_performance_and_checkpoint on every run.",
+    "Trusts: Coq kernel, extraction, OCaml glue, Python harness. Returns are rationals in the model (dyadic in the cases). train_td7's use of the function (epoch += training_steps) is mirrored by td7_run and observed in the C11 train runs. No axioms.",
+)
 _PENDING = "check not built yet in this revision (planned: Coq model + correspondence, see DESIGN.md §2)"
 NOT_APPLICABLE = {f"C{i:02d}": _PENDING for i in range(1, 21) if f"C{i:02d}" not in CHECKS}
